@@ -34,7 +34,7 @@ def run_tlc(module: str, cfg: Optional[str] = None, *, workers: int = 16, env: O
             deadlock: bool = False) -> Dict[str, Any]:
     """Run TLC on spec/<module>.tla; returns dict(out, states, distinct, depth, ok, wall_s, violation)."""
     meta = tempfile.mkdtemp(prefix="tlcmeta_")
-    cmd = ["java", "-XX:+UseParallelGC", "-Xmx8g", "-cp", _classpath(), "tlc2.TLC", "-metadir", meta,
+    cmd = ["java", "-XX:+UseParallelGC", "-Xmx8g", "-Djava.io.tmpdir=" + meta, "-cp", _classpath(), "tlc2.TLC", "-metadir", meta,
            "-noGenerateSpecTE", "-workers", str(workers)]
     if cfg:
         cmd += ["-config", cfg]
